@@ -244,7 +244,7 @@ def finish(prop, tier, seed, spec, units, viols, ran, harness_fail, t0):
         w = a['witnesses'][0] if a['witnesses'] else {}
         un = w.get('unit', a['units'][0] if a['units'] else None)
         u = unitmap.get(un)
-        fn = os.path.join(rdir, safe(k[1] + '__' + k[2]) + '.json')
+        fn = os.path.join(rdir, safe(k[1] + '__' + k[2]) + '.' + hashlib.sha1((k[1] + '|' + k[2]).encode()).hexdigest()[:6] + '.json')
         rec = {'property': prop, 'op': k[1], 'class': k[2], 'count': a['count'], 'seed': seed, 'tier': tier,
                'unit': u.describe() if u else None, 'witnesses': a['witnesses'],
                'replay_cmd': './check %s --replay %s' % (prop, os.path.relpath(fn, VERIF))}
